@@ -437,7 +437,71 @@ def enum_heavy(tier):
             yield {'tool': tool, 'args': args}
 
 
+# ---------------------------------------------------------------------------
+# what the process is attached to
+
+TERMINAL_COMMANDS = [
+    ('cnfshuffle', ['--seed', '5', '-i', '@CNF']), ('cnfshuffle', ['--seed', '0', '-q', '-i', '@CNF']), ('cnfshuffle', ['-p', '-v', '-c', '-i', '@CNF']),
+    ('cnfgen', ['--seed', '5', 'dimacs', '@CNF', '-T', 'shuffle']), ('cnfgen', ['-q', 'dimacs', '@CNF']), ('cnfgen', ['dimacs', '@CNF', '-T', 'xor', '2']),
+    ('pbgen', ['dimacs', '@CNF']), ('kthlist2pebbling', ['-i', '@DAG']), ('kthlist2pebbling', ['-q', '-i', '@DAG', 'xor', '2']),
+    ('cnfgen', ['--seed', '3', 'randkcnf', '3', '8', '12']), ('pbgen', ['php', '3', '2']), ('cnfgen', ['-q', 'peb', 'kthlist', '@DAG']),
+    ('cnfgen', ['--seed', '9', 'kcolor', '3', 'gnp', '6', '0.5']), ('cnfgen', ['--seed', '9', 'php', '4', '3', '-T', 'xorcomp', 'glrd', '12', '8', '3']),
+    ('cnfgen', ['-of', 'latex', 'op', '3']), ('pbgen', ['--varnames', 'subsetcard', '--seed', '2', '4', '2']),
+]
+
+
+def run_terminal(case):
+    """the same command line as a real process three times: standard input /dev/null, standard input a pseudo-terminal,
+    standard input and standard error pseudo-terminals; none of these commands reads its standard input"""
+    import pty
+    from vlib import cli
+    tool, args = case['tool'], case['args']
+    d = tempfile.mkdtemp(prefix="c07t_")
+    try:
+        with open(os.path.join(d, 'f.cnf'), 'w') as fh:
+            fh.write("c a file\np cnf 4 4\n1 -2 0\n2 3 -4 0\n-1 0\n4 2 0\n")
+        with open(os.path.join(d, 'g.kthlist'), 'w') as fh:
+            fh.write("4\n1 : 0\n2 : 0\n3 : 1 2 0\n4 : 3 0\n")
+        argv = [{'@CNF': 'f.cnf', '@DAG': 'g.kthlist'}.get(a, a) for a in args]
+        outs = []
+        for mode in ('stdin=/dev/null', 'stdin=terminal', 'stdin+stderr=terminal'):
+            if mode == 'stdin=/dev/null':
+                r = cli.run_subprocess(tool, argv, cwd=d, hashseed=case.get('hashseed', '0'), stdin_fd=__import__('subprocess').DEVNULL)
+            else:
+                master, slave = pty.openpty()
+                try:
+                    r = cli.run_subprocess(tool, argv, cwd=d, hashseed=case.get('hashseed', '0'), stdin_fd=slave,
+                                           stderr_fd=slave if mode == 'stdin+stderr=terminal' else None)
+                finally:
+                    os.close(slave)
+                    os.close(master)
+            outs.append((mode, r.code, r.out))
+    finally:
+        shutil.rmtree(d, ignore_errors=True)
+    what = "{} {}".format(tool, ' '.join(argv))
+    if outs[0][1] != 0:
+        raise Violation("{}: exit status {} on a legal command line".format(what, outs[0][1]))
+    for mode, code, out in outs[1:]:
+        if (code, out) != outs[0][1:]:
+            da, db = outs[0][2].splitlines(), out.splitlines()
+            diff = next(((i, x, y) for i, (x, y) in enumerate(zip(da, db)) if x != y), (outs[0][1], code, len(da), len(db)))
+            raise Violation("{}: the standard output differs between {} and {} (same command line, same seed); first difference: {}".format(
+                what, outs[0][0], mode, diff))
+    return Outcome(labels=[tool, 'terminal'], nontrivial=len(outs[0][2]) > 0)
+
+
+def enum_terminal(tier):
+    for i, (tool, args) in enumerate(TERMINAL_COMMANDS):
+        if tier == 'quick' and i % 2 and i > 8:
+            continue
+        yield {'tool': tool, 'args': args, 'hashseed': str(i % 3)}
+
+
+
 SUBCHECKS = [
+    SubCheck('terminal', run_terminal, enumerate_cases=enum_terminal, quick=0, thorough=0, opt_pass=False, max_shards=4,
+             rule="sixteen command lines of the four tools that do not read their standard input (formula and graph given by file name, or a family), each as a real process with its standard input on /dev/null, on a pseudo-terminal, and with standard input and standard error on a pseudo-terminal; oracle: same exit status and the same bytes on the standard output - what the process is attached to is not part of the command line; non-trivial: some output",
+             required_labels=['terminal', 'cnfgen', 'pbgen', 'cnfshuffle', 'kthlist2pebbling']),
     SubCheck('inproc', run_inproc, strategy=strat_inproc, quick=800, thorough=60000,
              rule="command lines with --seed (seeds 0, 1, -1, 2^31, 2^64+3 and random; the option spelled '--seed N', '-S N', '--seed=N', '-SN' or '--see N') for cnfgen (+ -T chains), pbgen and cnfshuffle (DIMACS on stdin): every graph-taking sub-command with random and deterministic graph constructions and random modifiers, numeric random sub-commands, deterministic ones, '-T xorcomp|majcomp <random bipartite construction>' with the graph sampled while the command line is parsed, all output formats; oracle: two in-process runs of main() started from two different states of the global generator print identical (exit status, stdout, stderr) and no object address; in a fifth of the cases a second, earlier --seed is put in front and the output (apart from the header line quoting the command line) must be the one of the last value alone; non-trivial: exit 0 and the global generator was advanced past a freshly seeded state (the run drew random numbers)",
              required_labels=['seed=0', 'random-graph-arg', 'random-family', 'random-transformation', 'two-random-sources',
